@@ -2,14 +2,16 @@ module panharness
 
 go 1.21
 
-require github.com/Syuparn/pangaea v0.0.0
+require (
+	github.com/Syuparn/pangaea v0.0.0
+	github.com/macrat/simplexer v0.0.0-20180110131648-bce8e0661570
+)
 
 require (
 	github.com/dlclark/regexp2 v1.4.0 // indirect
 	github.com/labstack/echo/v4 v4.10.2 // indirect
 	github.com/labstack/gommon v0.4.0 // indirect
 	github.com/lithammer/dedent v1.1.0 // indirect
-	github.com/macrat/simplexer v0.0.0-20180110131648-bce8e0661570 // indirect
 	github.com/mattn/go-colorable v0.1.13 // indirect
 	github.com/mattn/go-isatty v0.0.17 // indirect
 	github.com/tanaton/dtoa v0.0.0-20190918101016-f12936c87cdb // indirect
